@@ -149,3 +149,8 @@ def _now(I, ci):
 def render_delayed(I, v):
     ts, fmt = v.state
     return render_strftime(I, ts, fmt)
+
+
+@model('DateTime::with_timezone', 'DateTime::naive_utc', 'DateTime::to_utc')
+def _with_timezone(I, ci, dt, *a):
+    return peel(dt)
